@@ -63,7 +63,9 @@ def run(chk, tier, seed):
     named = case_list(tier, seed)
     npres = 2 if tier == "quick" else 3
     pres = [le.presentation(seed, i) for i in range(npres)]
-    subsets = {"all_upto": 6, "sampled": 0} if tier == "quick" else {"all_upto": 8, "sampled": 3}
+    det = {n for n, _d in le.corpus_defs() + le.f_defs(5 if tier == "quick" else 6) + le.fplus_defs(5 if tier == "quick" else 6)}
+    subsets = {"all_upto": 6, "sampled": 0, "deterministic_names": det} if tier == "quick" else \
+        {"all_upto": 7, "sampled": 2, "deterministic_names": det}
     lr = le.LearnRun(named, (1, 2), pres, seed=seed, max_jobs=400 if tier == "quick" else 500, subsets=subsets).run()
     ndocs, stats = evaluate(chk, lr)
     nstr, gr = grammar_vs_parser(6 if tier == "quick" else 7)
